@@ -406,6 +406,29 @@ theorem run_trichotomy_uncoupled {ph : Phys} (inp : Inputs ℝ) (kCN : Nat) (hi 
   have := hrs.2.2.2.2 sj T (by rw [e]; exact hj) (by rw [e]; exact hT) hpos
   rw [e] at this; exact this
 
+/-- **every recorded transition out of the columns up to and including the first column with ice
+is one of the three transitions — NOTHING monitored, ANY coupling, ANY start temperature in the
+stability range**: if the columns before `J` are ice-free (e.g. `J` = the first column with ice),
+then for every `j ≤ J` the transition of every vial from column `j` is one of the three
+(`run_transition_of_range` + `C06.run_admissible_until_first_nucleation`). In particular the
+nucleation jumps that create the first ice, and the first solidification steps after them. -/
+theorem run_trichotomy_until_first_nucleation {ph : Phys} (inp : Inputs ℝ) (kCN : Nat) (hi : ℝ) (J : Nat)
+    (hwf : Snow.C05.WF inp.oc inp.p.dt)
+    (st : Snow.C06.Stable ph inp.p inp.nVials inp.oc.stop hi)
+    (hT0 : inp.oc.start ≤ inp.T0) (hT0hi : inp.T0 ≤ hi) (hstart : inp.oc.start ≤ hi)
+    (hliq : ∀ (j : Nat) (sj : State ℝ), (runWith inp kCN).traj[j]? = some sj → j < J →
+      ∀ (i : Nat) (v : Vial ℝ), sj.vials[i]? = some v → v.sigma = 0) :
+    ∀ (j : Nat) (sj : State ℝ) (T : ℝ), (runWith inp kCN).traj[j]? = some sj →
+      (runWith inp kCN).Tshelf[j]? = some T → j ≤ J →
+      ∀ (i : Nat) (v : Vial ℝ), sj.vials[i]? = some v →
+        ∃ v', (step inp.p kCN j T sj).vials[i]? = some v' ∧
+          IsTransition ph inp.p (j == kCN) j T sj i v v' := by
+  intro j sj T hj hT hjJ i v hvi
+  have hb := Snow.C06.run_admissible_until_first_nucleation inp kCN hi J hwf st hT0 hT0hi hstart hliq
+    j sj hj hjJ i v hvi
+  exact (run_transition_of_range ph st.valid inp st.consts (ne_of_gt st.dt_pos)
+    kCN j sj T hj hT i v hvi hb.1.1 hb.1.2).2.2
+
 /-- **a run on a declared shape uses the geometric heat flow**: when the parameters of the run
 are built by `Params.withShape` (which is what the driver does for the `arr`/`shape` the user
 configured, `Ops/Flake.lean`), then in every step of the run the new value of vial `i` is
